@@ -1,6 +1,6 @@
 (* Command dispatcher of the extracted engine. *)
 From Zorg Require Import Base.PyStr Base.Sexp Base.Res.
-From Zorg Require Import Model.FileGroups Model.Zid Model.Rename Model.Templates Model.SavedQ Model.ActionOpen Model.FileListener Model.NoteText Model.Executor Model.Move Model.QueryListener Model.Where Model.WriteBack Model.WorldWire.
+From Zorg Require Import Model.FileGroups Model.Zid Model.Rename Model.Templates Model.SavedQ Model.ActionOpen Model.FileListener Model.NoteText Model.Executor Model.Move Model.QueryListener Model.Where Model.WriteBack Model.WorldWire Model.PageSyntax.
 
 Definition commands : list (str * (list sexp -> sexp)) :=
   [ (S "expand", cmd_expand)
@@ -18,6 +18,8 @@ Definition commands : list (str * (list sexp -> sexp)) :=
   ; (S "action", cmd_action)
   ; (S "targets", cmd_targets)
   ; (S "listen", cmd_listen)
+  ; (S "page_tree", cmd_page_tree)
+  ; (S "page_spec", cmd_page_spec)
   ; (S "to_string", cmd_to_string)
   ; (S "execute", cmd_execute)
   ; (S "move", cmd_move)
